@@ -482,7 +482,11 @@ def exp_cell(repo, ll_kind):
     ll_value = {"positive": 0.25, "zero": 0.0, "negative": -0.25, "positive-int": 4, "zero-int": 0,
                 "symbolic": sym("LL"), "array": Obj("ndarray", {"fmt": "ARR"}),
                 "positive numpy scalar": npscalar("NP", 0.25), "zero numpy scalar": npscalar("NP", 0.0),
-                "negative numpy scalar": npscalar("NP", -0.25)}[ll_kind]
+                "negative numpy scalar": npscalar("NP", -0.25),
+                "positive sympy number": npscalar("SQ", 0.25)}[ll_kind]
+    if ll_kind == "positive sympy number":
+        # sympy's Integer / Rational / Float are sympy expressions AND numbers.Real: the square of cos(t) e1 + sin(t) e2, of Rational(1, 2) e1
+        ll_value.kind = "sympynum"
     if ll_kind == "array":
         arr = ll_value
         arr.methods["binop"] = lambda op, other, refl: sym(f"arr({op})")
@@ -509,7 +513,9 @@ def exp_cell(repo, ll_kind):
 
     def isinst(v, name):
         if name == "Expr":
-            return isinstance(v, Obj) and v.kind == "sym" and v is ll_value
+            return isinstance(v, Obj) and (v.kind == "sym" and v is ll_value or v.kind == "sympynum")
+        if isinstance(v, Obj) and v.kind == "sympynum":
+            return name in ("Real", "Number", "Complex", "Rational", "Basic", "Atom") if name not in ("float", "int", "Integral") else False
         if name in ("float", "int") and isinstance(v, Obj):
             return False
         if name in ("Real", "Number", "Complex") and isinstance(v, Obj):
@@ -542,15 +548,19 @@ EXP_EXPECT = {
     # numpy scalars are real numbers that are no instances of float / int (F31): same families, chosen by the sign of the square
     "positive numpy scalar": {"((X*(np.sinh((NP**0.5))/(NP**0.5)))+np.cosh((NP**0.5)))"},
     "zero numpy scalar": {"((X*1)+1)"},
+    # a sympy number stays in sympy: numpy's cosh / sinh do not take sympy expressions (TypeError: loop of ufunc does not support ...)
+    "positive sympy number": {"((X*sympy.sinc(((-SQ)**0.5)))+sympy.cos(((-SQ)**0.5)))", "((X*(sympy.sinh((SQ**0.5))/(SQ**0.5)))+sympy.cosh((SQ**0.5)))"},
     "negative numpy scalar": {"((X*np.sinc((((-NP)**0.5)/pi)))+np.cos(((-NP)**0.5)))", "((X*(np.sin(((-NP)**0.5))/((-NP)**0.5)))+np.cos(((-NP)**0.5)))"},
 }
 
 
-@rule("C19.exp-branches", props=["C19", "C12"], min_instances=9, mutants=[
+@rule("C19.exp-branches", props=["C19", "C12"], min_instances=10, mutants=[
     ("positive square uses cos", ("multivector", "                cosh = np.cosh\n                sinhc = lambda x: np.sinh(x) / x", "                cosh = np.cos\n                sinhc = lambda x: np.sinh(x) / x")),
     ("negative square takes sqrt(x) instead of sqrt(-x)", ("multivector", "                # Assume numpy\n                sqrt = lambda x: (-x) ** 0.5", "                # Assume numpy\n                sqrt = lambda x: x ** 0.5")),
     ("result combined as x*cosh + sinhc", ("multivector", "        return self * sinhc(l) + cosh(l)", "        return self * cosh(l) + sinhc(l)")),
     ("zero square falls into the hyperbolic branch", ("multivector", "            elif isinstance(ll, Real) and ll > 0:", "            elif isinstance(ll, Real) and ll >= 0:")),
+    ("numbers are asked for before sympy expressions (sympy's Rational is a Real)", [("multivector", "            if isinstance(ll, Expr):\n                sqrt = lambda x: (-x) ** 0.5\n                cosh = cos\n                sinhc = sinc\n            elif isinstance(ll, Real) and ll > 0:", "            if isinstance(ll, Real) and ll > 0:"),
+                                                                                      ("multivector", "                cosh = sinhc = lambda x: 1\n            else:", "                cosh = sinhc = lambda x: 1\n            elif isinstance(ll, Expr):\n                sqrt = lambda x: (-x) ** 0.5\n                cosh = cos\n                sinhc = sinc\n            else:")]),
     ("only python numbers are asked for their sign (F31)", ("multivector", "            elif isinstance(ll, Real) and ll > 0:", "            elif isinstance(ll, (float, int)) and ll > 0:")),
     ("sinc without the pi rescaling", ("multivector", "                sinhc = lambda x: np.sinc(x / np.pi)", "                sinhc = lambda x: np.sinc(x)")),
 ])
